@@ -30,7 +30,7 @@ def run(chk, tier):
     routes = []
     for q in levels:
         routes += [("interp-Q%d" % q, "interp", q, ()), ("ao-interp-Q%d" % q, "ao", q, ()), ("c-Q%d" % q, "c", q, ())]
-    fixed = fixedprogs.fixed_regressions()
+    fixed = fixedprogs.fixed_regressions() + fixedprogs.findings_opt()
     fam0 = progcheck.Family(chk, fixed, "fixed", cfg="AldorSemAny", workers=4, timeout=300)
     progcheck.replay(chk, b, fam0, routes, wd)
     per = {}
